@@ -1,32 +1,70 @@
 /-
 C05 — native token supply and governance accounting are conserved.
-Property theorems over the model `NeoModel.Model.Tokens` (helper lemmas in `NeoModel.Proofs.Tokens*`).
+
+Property theorems over the model `NeoModel.Model.Tokens` (the accounting of native_nep17.go / native_gas.go /
+native_neo.go / notary.go as written, driven by a transaction machine with FAULT roll-back and nested payment
+callbacks).  Helper lemmas live in `NeoModel.Proofs.Tokens*`.
+
+`Inv nt l` (Proofs/TokensInv.lean) is the property's state invariant for the ledger `l`, `nt` being the account
+of the Notary contract; `inv_reading` below spells it out.
 -/
-import NeoModel.Proofs.TokensAL
+import NeoModel.Proofs.TokensMachine
 namespace NeoModel.Tokens
 
-/-- GAS supply and the sum of GAS balances move together under addTokens (mint and burn),
-whatever the account and the (signed) amount. -/
-theorem gasAddTokens_conserves (l l' : Ledger) (h : Nat) (amount : Int)
-    (hs : sumBy id l.gas = l.gasSupply) (hr : gasAddTokens l h amount = some l') :
-    sumBy id l'.gas = l'.gasSupply := by
-  unfold gasAddTokens at hr
-  simp only [gasInc] at hr
-  split at hr
-  · injection hr with hr
-    subst hr
-    simp only [sumBy_store]
-    revert hs
-    generalize sumBy id l.gas = S
-    unfold at0
-    rename_i hok
-    intro hs
-    split at hok <;> (try split at hok) <;> (try split at hok) <;> simp at hok <;>
-      (cases hg : get l.gas h <;> simp_all <;> (try split) <;> simp_all <;> omega)
-  · simp at hr
+/-- What `Inv` says, in the property's words: the NEO supply is exactly 100 000 000 and equals the sum of the
+NEO balances; the GAS supply equals the sum of the GAS balances; every candidate's votes (0 for a key without
+record) equal the NEO of the accounts voting for it; the voters count equals the NEO of all voting accounts;
+the GAS of the Notary contract equals the sum of the deposits; every stored balance is positive, every deposit
+non-negative; and each map has one entry per key, so that the sums range over accounts. -/
+theorem inv_reading (nt : Nat) (l : Ledger) (h : Inv nt l) :
+    l.neoSupply = 100000000 ∧ sumBy (·.bal) l.neo = l.neoSupply ∧
+    sumBy id l.gas = l.gasSupply ∧
+    (∀ c, at0 (·.votes) l.cands c = sumBy (fun a => if a.vote = some c then a.bal else 0) l.neo) ∧
+    l.voters = sumBy (fun a => if a.vote.isSome then a.bal else 0) l.neo ∧
+    at0 id l.gas nt = sumBy (·.amount) l.deps ∧
+    (∀ p ∈ l.neo, 0 < p.2.bal) ∧ (∀ p ∈ l.gas, 0 < p.2) ∧ (∀ p ∈ l.deps, 0 ≤ p.2.amount) ∧
+    (keys l.neo).Nodup ∧ (keys l.gas).Nodup ∧ (keys l.cands).Nodup ∧ (keys l.deps).Nodup := by
+  refine ⟨h.neoSupply, by simpa using h.neoSum, by simpa using h.gas.sum, h.votes.votes, h.votes.voters,
+    by simpa using h.notary.eq, h.votes.neoPos, h.gas.pos, h.notary.nonneg,
+    h.votes.neoNodup, h.gas.nodup, h.votes.candNodup, h.notary.nodup⟩
 
--- non-vacuity: a burn of 3 from an account holding 5 out of a supply of 5
-example : gasAddTokens { gas := [(7, 5)], gasSupply := 5 } 7 (-3) = some { gas := [(7, 2)], gasSupply := 2 } := by
-  decide
+/-- `inv_init`: the state after the natives' initialisation in block 0 satisfies the invariant
+(both initial supplies go to the standby validators' address `h`, which is not the Notary contract). -/
+theorem inv_init (e : Env) (h : Nat) (gasInit : Int) (l : Ledger)
+    (hn : h ≠ e.notary) (hc : e.neoC ≠ e.notary) (hg : genesis h gasInit = some l) :
+    MInv e.notary (initSt e l) :=
+  have hi := genesis_inv e.notary h gasInit l hn hg
+  ⟨rfl, hc, hi, hi⟩
+
+-- non-vacuity: the genesis of a chain whose validators' address is account 0
+example : ∃ l, genesis 0 5200000000000000 = some l ∧ l.neoSupply = 100000000 ∧ l.gasSupply = 5200000000000000 :=
+  ⟨_, rfl, rfl, rfl⟩
+
+/-- `inv_step`: every operation of the machine — block start, OnPersist (fee burning, primary and notary
+rewards, deposit charging), a transaction start, any native call with any arguments and any outcome (success,
+`false`, panic), nested payment callbacks, transaction end with HALT or FAULT, PostPersist — preserves the
+invariant of both the current ledger and the ledger a FAULT restores. -/
+theorem inv_step (nt : Nat) (s : St) (op : Op) (h : MInv nt s) : MInv nt (step s op) := step_inv s op h
+
+/-- `inv_reachable`: the invariant holds after every sequence of operations from genesis, in particular at
+every block boundary of every history. -/
+theorem inv_reachable (e : Env) (h : Nat) (gasInit : Int) (l : Ledger) (ops : List Op)
+    (hn : h ≠ e.notary) (hc : e.neoC ≠ e.notary) (hg : genesis h gasInit = some l) :
+    Inv e.notary (run (initSt e l) ops).cur :=
+  (run_inv _ ops (inv_init e h gasInit l hn hc hg)).cur
+
+/-- the failing branch of `transfer`: a transfer that returns `false` has changed no balance, supply, vote
+count or deposit — although the code stores the debited `from` before it credits `to` (native_nep17.go:161-173),
+the credit cannot fail on a state satisfying the invariant. -/
+theorem transfer_false_unchanged (nt : Nat) (t : Tok) (e : Env) (l l' : Ledger) (src dst : Nat) (amt : Int)
+    (wit b : Bool) (hi : Inv nt l) (h : transferPre t e l src dst amt wit = .ret l' b) :
+    b = false ∧ l'.neo = l.neo ∧ l'.neoSupply = l.neoSupply ∧ l'.gas = l.gas ∧ l'.gasSupply = l.gasSupply ∧
+    l'.cands = l.cands ∧ l'.voters = l.voters ∧ l'.deps = l.deps := by
+  obtain ⟨⟨e1, e2, e3, e4, e5, e6, e7⟩, hb⟩ := transferPre_ret t e l src dst amt wit l' b hi h
+  exact ⟨hb, e1, e2, e3, e4, e5, e6, e7⟩
+
+-- non-vacuity: a transfer of more than the balance returns false and leaves the ledger as it was
+example : transferPre .neo ⟨9, 8, 1, 1, 0, [], 5, 0⟩ { neo := [(1, { bal := 3 })], neoSupply := 3 } 1 2 4 true =
+    .ret { neo := [(1, { bal := 3 })], neoSupply := 3 } false := by rfl
 
 end NeoModel.Tokens
